@@ -247,12 +247,14 @@ pub struct Repair {
     /// C3: a repeated identifier `[K[a], a]` is written with a fresh binder and a separate pin
     /// step `[K[a], a2], a2 =&a`
     pub unrepeat: bool,
+    /// N10: a branch whose pattern is an alternation becomes one branch per alternative
+    pub split_alt: bool,
 }
 
 /// Resolve the repair markers of a rendered source:
 ///   `\u{27E6}P\u{27E7}`                         K7: `P`, or `(P | P)` under `alt`
 ///   `\u{27EA}X\u{27EB}\u{27EC}Y\u{27ED}`      K9: `X` (a partial pattern), or `Y` (the full pattern) under `full`
-pub fn resolve_markers(s: &str, alt: bool, full: bool, bind_wild: bool, unrepeat: bool) -> String {
+pub fn resolve_markers(s: &str, alt: bool, full: bool, bind_wild: bool, unrepeat: bool, split_alt: bool) -> String {
     let s = &{
         // wildcards first: each becomes `_` or a unique binder
         let mut out = String::new();
@@ -271,9 +273,9 @@ pub fn resolve_markers(s: &str, alt: bool, full: bool, bind_wild: bool, unrepeat
         }
         out
     };
-    const CLOSERS: [char; 5] = ['\u{27E7}', '\u{27EB}', '\u{27ED}', '\u{2984}', '\u{2986}'];
-    fn go(cs: &[char], i: &mut usize, fl: (bool, bool, bool), out: &mut String) {
-        let (alt, full, unrepeat) = fl;
+    const CLOSERS: [char; 7] = ['\u{27E7}', '\u{27EB}', '\u{27ED}', '\u{2984}', '\u{2986}', '\u{2988}', '\u{298A}'];
+    fn go(cs: &[char], i: &mut usize, fl: (bool, bool, bool, bool), out: &mut String) {
+        let (alt, full, unrepeat, split_alt) = fl;
         while *i < cs.len() {
             let c = cs[*i];
             if c == '\u{27E6}' {
@@ -285,13 +287,19 @@ pub fn resolve_markers(s: &str, alt: bool, full: bool, bind_wild: bool, unrepeat
                 } else {
                     out.push_str(&inner);
                 }
-            } else if c == '\u{27EA}' || c == '\u{2983}' {
-                let second = if c == '\u{27EA}' { full } else { unrepeat };
+            } else if c == '\u{27EA}' || c == '\u{2983}' || c == '\u{2987}' {
+                let second = if c == '\u{27EA}' {
+                    full
+                } else if c == '\u{2983}' {
+                    unrepeat
+                } else {
+                    split_alt
+                };
                 *i += 1;
                 let mut x = String::new();
                 go(cs, i, fl, &mut x);
                 // the opener of the second part
-                if *i < cs.len() && (cs[*i] == '\u{27EC}' || cs[*i] == '\u{2985}') {
+                if *i < cs.len() && (cs[*i] == '\u{27EC}' || cs[*i] == '\u{2985}' || cs[*i] == '\u{2989}') {
                     *i += 1;
                 }
                 let mut y = String::new();
@@ -309,8 +317,14 @@ pub fn resolve_markers(s: &str, alt: bool, full: bool, bind_wild: bool, unrepeat
     let cs: Vec<char> = s.chars().collect();
     let mut out = String::new();
     let mut i = 0;
-    go(&cs, &mut i, (alt, full, unrepeat), &mut out);
+    go(&cs, &mut i, (alt, full, unrepeat, split_alt), &mut out);
     out
+}
+
+/// choice marker of the N10 repair: `x` normally (one branch with an alternation), `y` under
+/// `split_alt` (one branch per alternative)
+pub fn split_alt_choice(x: &str, y: &str) -> String {
+    format!("\u{2987}{x}\u{2988}\u{2989}{y}\u{298A}")
 }
 
 /// choice marker of the C3 repair: `x` normally, `y` under `unrepeat`
@@ -492,7 +506,7 @@ impl Prog {
         self.main.render(rp, &mut m);
         let arg = if rp.widen_arg { format!("{arg} w") } else { arg.to_string() };
         s.push_str(&m.replace("{ARG}", &arg));
-        resolve_markers(&s, rp.alt_subpat, rp.full_for_partial, rp.bind_wildcards, rp.unrepeat)
+        resolve_markers(&s, rp.alt_subpat, rp.full_for_partial, rp.bind_wildcards, rp.unrepeat, rp.split_alt)
     }
     pub fn size(&self) -> usize {
         self.defs.iter().map(|(_, d)| d.size()).sum::<usize>() + self.main.size() + self.aliases.len()
@@ -1236,6 +1250,36 @@ impl<'a> G<'a> {
             } else {
                 self.consequence(&binds)
             };
+            // a top-level alternation `(P1 | P2)` (no binders, tag consequence): under the N10
+            // repair the branch is written as two branches `=P1 => C | =P2 => C`
+            if binds.is_empty() && p.starts_with('(') && p.ends_with(')') && p.contains(" | ") && cond == format!("={p}") {
+                if let Node::T(ctext) = &cons {
+                    let inner = &p[1..p.len() - 1];
+                    // split at the top-level bar (members are flat: no nested parentheses with bars)
+                    let mut depth_p = 0i32;
+                    let mut cut = None;
+                    let cs: Vec<char> = inner.chars().collect();
+                    for k in 0..cs.len() {
+                        match cs[k] {
+                            '(' | '[' => depth_p += 1,
+                            ')' | ']' => depth_p -= 1,
+                            '|' if depth_p == 0 && k > 0 && cs[k - 1] == ' ' => {
+                                cut = Some(k);
+                                break;
+                            }
+                            _ => {}
+                        }
+                    }
+                    if let Some(k) = cut {
+                        let p1: String = cs[..k].iter().collect::<String>().trim().to_string();
+                        let p2: String = cs[k + 1..].iter().collect::<String>().trim().to_string();
+                        let joined = format!("={p} => {ctext}");
+                        let split = format!("={p1} => {ctext} | ={p2} => {ctext}");
+                        branches.push(t(&split_alt_choice(&joined, &split)));
+                        continue;
+                    }
+                }
+            }
             if self.r.chance(1, 8) && binds.is_empty() {
                 // condition without consequence
                 branches.push(t(&cond));
